@@ -83,7 +83,11 @@ class ContinuousDiscretizer(BaseDiscretizer):
         if self.n_jobs <= 1:
             all_orders = [
                 fit_feature(
-                    feature, X=X[self.quantitative_features], q=self.q, str_nan=self.str_nan
+                    feature,
+                    X=X[self.quantitative_features],
+                    q=self.q,
+                    str_nan=self.str_nan,
+                    min_freq=self.min_freq,
                 )
                 for feature in self.quantitative_features
             ]
@@ -93,7 +97,11 @@ class ContinuousDiscretizer(BaseDiscretizer):
                 # feature processing
                 all_orders += pool.imap_unordered(
                     partial(
-                        fit_feature, X=X[self.quantitative_features], q=self.q, str_nan=self.str_nan
+                        fit_feature,
+                        X=X[self.quantitative_features],
+                        q=self.q,
+                        str_nan=self.str_nan,
+                        min_freq=self.min_freq,
                     ),
                     self.quantitative_features,
                 )
@@ -106,10 +114,10 @@ class ContinuousDiscretizer(BaseDiscretizer):
         return self
 
 
-def fit_feature(feature: str, X: DataFrame, q: float, str_nan: str):
+def fit_feature(feature: str, X: DataFrame, q: float, str_nan: str, min_freq: float = None):
     """Fits one feature"""
     # getting quantiles for specified feature
-    quantiles = find_quantiles(X[feature].values, q=q)
+    quantiles = find_quantiles(X[feature].values, q=q, min_freq=min_freq)
 
     # Converting to a groupedlist
     order = GroupedList(quantiles + [inf])
@@ -124,6 +132,7 @@ def fit_feature(feature: str, X: DataFrame, q: float, str_nan: str):
 def find_quantiles(
     df_feature: array,
     q: int,
+    min_freq: float = None,
 ) -> list[float]:
     """Finds quantiles of a Series recursively.
 
@@ -152,6 +161,7 @@ def find_quantiles(
                 q,
                 len_df=len(df_feature),  # getting raw dataset size
                 quantiles=[],  # initiating list of quantiles
+                min_freq=min_freq,
             )
         )
     )
@@ -162,6 +172,7 @@ def np_find_quantiles(
     q: int,
     len_df: int = None,
     quantiles: list[float] = None,
+    min_freq: float = None,
 ) -> list[float]:
     """Finds quantiles of a Series recursively.
 
@@ -193,17 +204,27 @@ def np_find_quantiles(
     # frequencies per known value
     values, frequencies = unique(df_feature, return_counts=True)
 
+    # minimal frequency of an over-populated value: a quantile's size, and never more than
+    # min_freq (the rounded number of quantiles q can be smaller than 1 / min_freq)
+    min_frequency = 1 / q
+    if min_freq is not None:
+        min_frequency = min(min_frequency, min_freq)
+
     # case 3 : there are no missing values
     # case 3.1 : there is an over-populated value
-    if any(frequencies >= len_df / q):
+    if any(frequencies / len_df >= min_frequency):
         # identifying over-represented modality
-        frequent_values = values[frequencies >= len_df / q]
+        frequent_values = values[frequencies / len_df >= min_frequency]
 
         # computing quantiles on smaller and greater values
         sub_indices = digitize(df_feature, frequent_values, right=False)
         for i in range(0, len(frequent_values) + 1):
             quantiles += np_find_quantiles(
-                df_feature[(sub_indices == i) & (~in1d(df_feature, frequent_values))], q, len_df, []
+                df_feature[(sub_indices == i) & (~in1d(df_feature, frequent_values))],
+                q,
+                len_df,
+                [],
+                min_freq,
             )
 
         # adding over-represented modality to the list of quantiles
